@@ -95,6 +95,9 @@ def server_request_variants(rng, n):
         rng.shuffle(hs)
         for _ in range(rng.choice([0, 0, 1, 3, 10, 60, 118])):
             hs.insert(rng.randint(0, len(hs)), (b'X-Extra-%d' % rng.randint(0, 999), b'v%d' % rng.randint(0, 9)))
+        if rng.random() < 0.2:
+            # a header the handshake does not interpret, with a Latin-1 / opaque value (obs-text): still a valid request
+            hs.insert(rng.randint(0, len(hs)), rng.choice([(b'X-User', b'Ren\xe9'), (b'Cookie', b'id=\xff\xfe\x80; a=b'), (b'X-Note', b'caf\xc3\xa9'), (b'User-Agent', b'\xa9 2020')]))
         if rng.random() < 0.15:
             name = rng.choice(dec)
             hs.insert(rng.randint(0, len(hs)), (name, rng.choice(NEAR_MISS[name])))   # duplicate with another value
